@@ -131,7 +131,7 @@ def run_case(spec):
 
     D = est.pair_distance(pairs)
     cmp('pair_distance', D)
-    for size in (4096, 8192 + 5):          # one call on many pairs (a multiple of plausible block sizes, and not)
+    for size in (4096, 8192 + 5, 8192 + 1, 2048 + 1):          # one call on many pairs (a multiple of plausible block sizes, and not)
         reps = -(-size // len(pairs))
         bigd = est.pair_distance(np.tile(pairs, (reps, 1, 1))[:size])
         ix = np.arange(size) % len(pairs)
